@@ -249,10 +249,15 @@ class Ctx:
         hv = h.hexdigest()
         if os.path.exists(out) and os.path.exists(stamp) and open(stamp).read() == hv:
             return out
-        err = rb.cc_harness(b, cfg, srcs, out, defs=list(defs), extra=list(extra))
-        if err:
-            raise BuildError("oracle compile failed (%s):\n%s" % (cfg, err))
-        open(stamp, "w").write(hv)
+        with rb.FileLock(out + ".lock"):
+            if os.path.exists(out) and os.path.exists(stamp) and open(stamp).read() == hv:
+                return out
+            tmp = "%s.tmp.%d" % (out, os.getpid())
+            err = rb.cc_harness(b, cfg, srcs, tmp, defs=list(defs), extra=list(extra))
+            if err:
+                raise BuildError("oracle compile failed (%s):\n%s" % (cfg, err))
+            os.replace(tmp, out)
+            open(stamp, "w").write(hv)
         return out
 
 
